@@ -116,7 +116,10 @@ WholeUncut(T, pnt) ==
                 /\ \A g \in 1..Len(T.map) : T.map[g].painted = pnt /\ Len(T.map[g].pieces) = 1 /\ T.map[g].pieces[1].st = 1
                                             /\ T.map[g].pieces[1].a = 1 /\ T.map[g].pieces[1].tags = <<>>
                 /\ \A g1, g2 \in 1..Len(T.map) : g1 < g2 => InputPos(T, T.map[g1].pieces[1].src) < InputPos(T, T.map[g2].pieces[1].src)
-                /\ \A g \in 1..Len(T.map) : LET L == SumLen(Src(T, T.map[g].pieces[1].src).rows) IN Abs(T.map[g].pieces[1].b - L) * T.td < T.tn
+                \* "with Pretext's rounding of scaffold ends": the scaffold is shown with floor(L/t) or ceil(L/t) texels and ends at floor(texels * t)
+                \* (so up to floor(t) + 1 bases may be missing: one texel of the count, one base of the floor)
+                /\ \A g \in 1..Len(T.map) : LET L == SumLen(Src(T, T.map[g].pieces[1].src).rows)  b == T.map[g].pieces[1].b IN
+                       \E n \in {(L * T.td) \div T.tn, (L * T.td + T.tn - 1) \div T.tn} : b = (n * T.tn) \div T.td
 IsNullMap(T) == WholeUncut(T, 0)
 IsPaintedNullMap(T) == WholeUncut(T, 1)
 \* (a scaffold absent from the map is re-added whole, whatever the length of its contigs: the condition concerns the scaffolds shown)
